@@ -483,6 +483,11 @@ def _traversal(ctx: Ctx, rep: Report, f: Func) -> None:  # noqa: C901
             enum_start = v if isinstance(v, int) else None
         if isinstance(loop.ast.target, ast.Tuple) and len(loop.ast.target.elts) == 2:
             idxvar, itemvar = src(loop.ast.target.elts[0]), src(loop.ast.target.elts[1])
+    elif isinstance(it, ast.Call) and isinstance(it.func, ast.Name) and it.func.id in ("zip", "map", "starmap") or (isinstance(it, ast.Call) and src(it.func).startswith("itertools.")):
+        # the numbers are computed beforehand and paired with the items (`zip(items, numbers)`): not the running-number
+        # shape this rule reads - what each item gets cannot be read off the loop
+        rep.note(f"R10.4 {f.qualname}: the loop pairs the items with numbers computed elsewhere (`{snippet(it, 40)}`) - order and step of the numbering not judged")
+        return
     paths = function_paths(cfg)
     env0 = paths[0].env if paths else {}
     defs: Dict[str, List[ast.AST]] = {}
